@@ -121,6 +121,20 @@ Proof.
   pose proof (nulfree_takeN idx l F) as Fa. pose proof (nulfree_dropN idx l F) as Fb.
   cbn zeta. repeat match goal with |- context [if ?c then _ else _] => destruct c end; auto 10.
 Qed.
+Lemma nulfree_indent_fold pad seen l acc : nulfree pad -> nulfree l -> nulfree acc -> nulfree (indent_fold pad seen l acc).
+Proof.
+  intros Fp Fl. revert seen acc. induction Fl as [|c t Hc Ht IH]; intros seen acc Fa; cbn [indent_fold]; [exact Fa|].
+  assert (A1 : nulfree (acc ++ [c])) by (apply nulfree_app; split; [exact Fa|constructor; [exact Hc|constructor]]).
+  assert (A2 : nulfree ((acc ++ pad) ++ [c])).
+  { apply nulfree_app; split; [apply nulfree_app; now split|constructor; [exact Hc|constructor]]. }
+  destruct ((c =? 10) || (c =? 13)); [now apply IH|]. destruct seen; now apply IH.
+Qed.
+Lemma nulfree_indented l n ch : nulfree l -> nulfree (l0_indented l n ch).
+Proof.
+  intros F. unfold l0_indented. destruct (n =? 0); cbn [orb]; [exact F|]. destruct (ch =? 0) eqn:E; [exact F|].
+  apply N.eqb_neq in E. pose proof (nulfree_repN ch n E) as Fp.
+  apply nulfree_indent_fold; trivial. destruct ((nthN 0 l =? 13) || (nthN 0 l =? 10)); [exact Fp|constructor].
+Qed.
 Lemma nulfree_clit l c : nulfree l -> carg_ok c -> nulfree (clit_of l c).
 Proof. intros H C. destruct c; cbn [clit_of]; [constructor|apply C|now apply nulfree_dropN]. Qed.
 
@@ -198,6 +212,7 @@ Proof.
   - inversion H; subst; clear H; cbn [out0_nulfree]. exact (nulfree_strip_suffix_nc (S (length l)) l [ch] max F).
   - inversion H; subst; clear H; cbn [out0_nulfree]. now apply nulfree_strip_ch_prefix_nc.
   - inversion H; subst; clear H; cbn [out0_nulfree]. destruct A as [Aa As]. apply nulfree_with_word; trivial. now apply lit_nulfree.
+  - inversion H; subst; clear H; cbn [out0_nulfree]. now apply nulfree_indented.
 Qed.
 
 (* the state after any level-0 step is NUL-free again *)
